@@ -581,7 +581,13 @@ def check_write(I, s1, d, roles, wroot, pre_items, at_start, init_line, kind, va
     frag = pm.str_atoms(shape[:2] if has_nl else shape[:1])
     rest = shape[2:] if has_nl else shape[1:]
     ok = True
-    if kind != "loophead":
+    if kind == "return":
+        # finishing at once is fine when the fragment was the whole string
+        rv = I.force(s1, value) if value is not None else None
+        if tuple(rest) != () or not (isinstance(rv, VEnum) and rv.variant == "Ok"):
+            ok = False
+            why.append("a string with more input left returns after its first fragment")
+    elif kind != "loophead":
         ok = False
         why.append("a non-empty string leaves the loop after its first fragment (%s)" % kind)
     else:
